@@ -28,7 +28,21 @@ func (fc *funcCtx) waitGroup(st *State, ins ssa.Instruction, key string, args []
 	return TupleV{}
 }
 
-func (fc *funcCtx) ghostOnSend(st *State, name string, x *ssa.Send) {}
+// ghostOnSend: `note send <ch> after-closed <other>` makes every send on <ch>
+// carry the obligation that <other> has already been closed (a consumer that
+// drains <other> first can then never be blocked by this send).
+func (fc *funcCtx) ghostOnSend(st *State, name string, x *ssa.Send) {
+	for _, n := range fc.con.Notes {
+		var ch, other string
+		if _, err := fmtSscanf(n, "send %s after-closed %s", &ch, &other); err == nil && ch == name {
+			if v, ok := st.entryVals[other].(ChanV); ok {
+				if cs := st.chans[v.ID]; cs != nil {
+					fc.oblige(st, "chan-send-after-close", name+"/"+fc.site(x.Pos(), "send"), cs.Closed, "send on "+name+" happens only after "+other+" has been closed")
+				}
+			}
+		}
+	}
+}
 
 // returnGhostChecks: protocol obligations at function exit named by the contract notes:
 //   note closes <chan>      -> the channel parameter is closed on every return path
